@@ -592,3 +592,42 @@ class Grammar:
         for nid in sorted(self.nodes):
             o.append(f"template<> inline constexpr int vh::vid< {ns}::tag, {self.nodes[nid].cpp} > = {nid};")
         return "\n".join(o) + "\n"
+
+
+# ---------------------------------------------------------------- (de)serialisation for replay files
+
+def type_to_json(t):
+    if isinstance(t, Ref):
+        return {'ref': t.id}
+    if isinstance(t, T):
+        return {'ns': t.ns, 'name': t.name, 'args': [type_to_json(a) for a in t.args]}
+    return {'lit': [t[0], t[1]]}
+
+
+def type_from_json(d):
+    if 'ref' in d:
+        return Ref(d['ref'])
+    if 'lit' in d:
+        return (d['lit'][0], d['lit'][1])
+    return T(d['ns'], d['name'], tuple(type_from_json(a) for a in d['args']))
+
+
+def grammar_to_json(g: Grammar):
+    return {'gid': g.gid, 'named': {str(k): type_to_json(v) for k, v in g.named.items()},
+            'acts': {str(k): vars(v) for k, v in g.acts.items()},
+            'fams': {str(f): {str(k): vars(v) for k, v in m.items()} for f, m in g.fams.items()},
+            'messages': {str(k): v for k, v in g.messages.items()}}
+
+
+def grammar_from_json(d) -> Grammar:
+    g = Grammar(d['gid'])
+    for k, v in d['named'].items():
+        g.named[int(k)] = type_from_json(v)
+    g.next_id = max(g.named) + 1 if g.named else 0
+    g.resolve()
+    for k, v in d['acts'].items():
+        g.acts[int(k)] = ActSpec(**v)
+    for f, m in d.get('fams', {}).items():
+        g.fams[int(f)] = {int(k): ActSpec(**v) for k, v in m.items()}
+    g.messages = {int(k): v for k, v in d.get('messages', {}).items()}
+    return g
